@@ -140,6 +140,22 @@ class Walker:
                     else:
                         f.add(st2)
             return t, f
+        # the counter against an earlier snapshot of itself:  self.n > before  <=>  it was incremented since `before = self.n`
+        if c[0] == 'cmp' and c[1] in ('Gt', 'NotEq', 'Eq', 'LtE', 'Lt', 'GtE') and ((c[2][0] == 'attr' and c[3][0] == 'snap' and c[3][1] == c[2]) or (c[3][0] == 'attr' and c[2][0] == 'snap' and c[2][1] == c[3])):
+            snap = c[3] if c[3][0] == 'snap' else c[2]
+            op = c[1] if c[3][0] == 'snap' else {'Gt': 'Lt', 'Lt': 'Gt', 'LtE': 'GtE', 'GtE': 'LtE'}.get(c[1], c[1])
+            # attr OP snap with delta = attr - snap in {zero, pos}
+            true_when = {'Gt': 'pos', 'NotEq': 'pos', 'Eq': 'zero', 'LtE': 'zero', 'Lt': 'never', 'GtE': 'always'}[op]
+            t, f = set(), set()
+            for st in cur:
+                v = dict(self._st(st)[2]).get(('snapdelta', snap[2]))
+                if true_when == 'always' or (v is not None and v == true_when):
+                    t.add(st)
+                elif true_when == 'never' or v is not None:
+                    f.add(st)
+                else:
+                    t.add(st); f.add(st)
+            return t, f
         ct = counter_test(c)
         if ct is not None and any(ct[0] == a for st in cur for a, _ in self._st(st)[2]):
             attr, true_when_zero = ct
@@ -201,6 +217,15 @@ class Walker:
                         self.violations.append(('failed', e, last))
                     new.add(('unchecked', e, cnt))
                 cur = new
+            elif k == 'snap':
+                new = set()
+                for full in cur:
+                    st, last, cnt = self._st(full)
+                    d = dict(cnt)
+                    d[('snapdelta', e.sid)] = 'zero'
+                    d[('snapof', e.sid)] = e.attr
+                    new.add((st, last, frozenset(d.items())))
+                cur = new
             elif k in ('store', 'augstore') and e.target[0] == 'attr' and e.target[2] != 'status' and \
                     ((k == 'store' and e.value in (C(0), C(False))) or (k == 'augstore' and e.op == 'Add' and e.value == C(1)) or (k == 'store' and e.value == C(True))):
                 # a counter / flag: reset to 0 (False), incremented (set True)
@@ -216,6 +241,12 @@ class Walker:
                         new.add((st, last, cnt))
                         continue
                     d[e.target] = val
+                    for key in list(d):
+                        if key[0] == 'snapof' and d[key] == e.target:
+                            if k == 'augstore':
+                                d[('snapdelta', key[1])] = 'pos'          # incremented since the snapshot
+                            else:
+                                d.pop(('snapdelta', key[1]), None)        # reset: the relation to the snapshot is lost
                     new.add((st, last, frozenset(d.items())))
                 cur = new
             elif k == 'if':
